@@ -201,7 +201,6 @@ func (r *rollbackMitigation) startObserve(groupID int) {
 
 	r.loadVbUUIDMap()
 
-	r.observeTimer = time.NewTicker(r.config.RollbackMitigation.Interval)
 	for {
 		select {
 		case <-r.observeTimer.C:
@@ -297,6 +296,10 @@ func (r *rollbackMitigation) reconfigure() {
 		logger.Log.Error("error while mark absent instances, err: %v", err)
 		panic(err)
 	}
+
+	// the ticker exists before the loop's goroutine runs: a Stop (or reconfigure) arriving first must find it,
+	// otherwise it skips the hand-shake and the loop is never told to end
+	r.observeTimer = time.NewTicker(r.config.RollbackMitigation.Interval)
 
 	go r.startObserve(r.activeGroupID)
 }
@@ -412,8 +415,9 @@ func (r *rollbackMitigation) Start() {
 
 	r.reconfigure()
 
+	r.configWatchRunning = true
+
 	go func() {
-		r.configWatchRunning = true
 		for r.configWatchRunning {
 			time.Sleep(r.config.RollbackMitigation.ConfigWatchInterval)
 			r.configWatch()
